@@ -65,7 +65,7 @@ from dask_expr._reductions import (
     ValueCounts,
 )
 from dask_expr._repartition import Repartition, RepartitionToFewer
-from dask_expr._util import LRU, _convert_to_list
+from dask_expr._util import LRU, _convert_to_list, _labels_to_list
 
 
 class ShuffleBase(Expr):
@@ -958,7 +958,7 @@ class SetIndex(BaseSetIndexSortValues):
             columns = determine_column_projection(
                 self, parent, dependents, additional_columns=addition_columns
             )
-            columns = _convert_to_list(columns)
+            columns = _labels_to_list(columns)
             # other dependents may refer to columns by names that do not exist
             # below (e.g. a rename on top of us)
             columns = [col for col in self.frame.columns if col in columns]
@@ -1133,7 +1133,7 @@ class SortValues(BaseSetIndexSortValues):
             columns = determine_column_projection(
                 self, parent, dependents, additional_columns=self.by
             )
-            columns = _convert_to_list(columns)
+            columns = _labels_to_list(columns)
             columns = [col for col in self.frame.columns if col in columns]
             if self.frame.columns == columns:
                 return
